@@ -9,7 +9,8 @@ the specification model.  Does NOT decide equality of values or bytes.
 """
 import ast
 
-from ..astutil import call_simple_name, conjuncts, dotted, guard_chain, names_in, short
+from ..astutil import call_simple_name, conjuncts, dotted, guard_chain, names_in, pm, pmall, short
+from ..forward import flow_of
 from ..cfg import cfg_of
 from ..loader import AnalysisError, ClassInfo, FunctionInfo, body_walk, norm, walk_no_nested
 from ..report import key
@@ -91,14 +92,15 @@ def rule_registry(ctx):
     # parse looks in objects then observables; class_for_type consults STIX2_OBJ_MAPS[version][category]
     cft = prog.func("stix2.registry::class_for_type")
     txt = norm(cft.node)
-    run.check("STIX2_OBJ_MAPS.get(stix_version)" in txt and "cat_map.get(category)" in txt and "class_map.get(stix_type)" in txt,
+    p_t, p_v, p_c = cft.params[0], cft.params[1], cft.params[2]
+    run.check(pmall(txt, "$cm = STIX2_OBJ_MAPS.get(%s)" % p_v, "$km = $cm.get(%s)" % p_c, "$k = $km.get(%s)" % p_t) is not None,
               R, key(cft.module.relpath, cft.qualname, "lookup"), "class_for_type no longer looks up version/category/type",
               file=cft.module.relpath, line=cft.node.lineno, function=cft.qualname,
               expected="STIX2_OBJ_MAPS[version][category].get(type)", found=short(cft.node, 160))
     col = prog.func("stix2.registry::_collect_stix2_mappings")
     ctxt = norm(col.node)
     want_pairs = [("'objects'", "OBJ_MAP"), ("'observables'", "OBJ_MAP_OBSERVABLE"), ("'extensions'", "EXT_MAP"), ("'markings'", "OBJ_MAP_MARKING")]
-    okc = all(("[%s] = mod.%s" % (a, b)) in ctxt for a, b in want_pairs)
+    okc = all(pm(ctxt, "[%s] = $m.%s" % (a, b)) is not None for a, b in want_pairs)
     run.check(okc, R, key(col.module.relpath, col.qualname, "category-wiring"),
               "registry categories are not wired to the version packages' literals", file=col.module.relpath,
               line=col.node.lineno, function=col.qualname, expected=want_pairs, found=short(col.node, 200))
@@ -432,9 +434,16 @@ def rule_defaulted(ctx):
     for t, pol, _ in gc:
         if pol:
             cj += [norm(x) for x in conjuncts(t)]
-    want = {"not-required": any(x == "not prop.required" for x in cj),
-            "not-fixed": any(x == "not hasattr(prop, '_fixed_value')" for x in cj),
-            "equals-default": any(x in ("prop.default() == setting_kwargs[name]", "setting_kwargs[name] == prop.default()") for x in cj)}
+    loop = next((p for p in _parents(apps[0]) if isinstance(p, ast.For)), None)
+    nv = pv = "?"
+    if loop is not None and isinstance(loop.target, ast.Tuple) and len(loop.target.elts) == 2:
+        nv, pv = norm(loop.target.elts[0]), norm(loop.target.elts[1])
+    # the mapping holding the cleaned values is what becomes self._inner
+    inner = [norm(a.value) for a in body_walk(fi.node) if isinstance(a, ast.Assign) and norm(a.targets[0]) == "self._inner"]
+    iv = inner[0] if inner else "?"
+    want = {"not-required": any(x == "not %s.required" % pv for x in cj),
+            "not-fixed": any(x == "not hasattr(%s, '_fixed_value')" % pv for x in cj),
+            "equals-default": any(x in ("%s.default() == %s[%s]" % (pv, iv, nv), "%s[%s] == %s.default()" % (iv, nv, pv)) for x in cj)}
     for name, ok in sorted(want.items()):
         run.check(ok, R, key(rel, fi.qualname, "conjunct:" + name),
                   "a property can be marked 'defaulted optional' (and be dropped from the output) without this condition; the "
@@ -443,8 +452,11 @@ def rule_defaulted(ctx):
     run.check(len(cj) == 3, R, key(rel, fi.qualname, "conjunct-count"), "guard of the bookkeeping changed", file=rel,
               line=apps[0].lineno, function=fi.qualname, expected=3, found=cj)
     # the loop ranges over all defined properties
-    loop = next((p for p in _parents(apps[0]) if isinstance(p, ast.For)), None)
-    run.check(loop is not None and norm(loop.iter) == "defined_properties.items()", R, key(rel, fi.qualname, "loop-over-defined"),
+    okl = False
+    if loop is not None and norm(loop.iter).endswith(".items()"):
+        pr = flow_of(fi).prov(loop.iter, cfg_of(fi).node_of(loop))
+        okl = "_properties" in pr.selfattrs and "ChainMap" in pr.calls
+    run.check(okl, R, key(rel, fi.qualname, "loop-over-defined"),
               "bookkeeping loop does not range over the defined properties", file=rel, line=apps[0].lineno, function=fi.qualname,
               expected="for name, prop in defined_properties.items()", found=norm(loop.iter) if loop is not None else None)
 
